@@ -332,6 +332,8 @@ def caches(R, P, fns):
                 # not moved: only acceptable when the node is known to be the back of this table's list already
                 gs_ = [RU.cmp_norm(f, c_, p_) for c_, p_, b_ in RU.guards(f, r_)]
                 at_back = any(g_ and g_[1] == "==" and g_[2] is not None and {f.show(RU.uncast(f, g_[0])).replace(" ", ""), f.show(RU.uncast(f, g_[2])).replace(" ", "")} == {"aws_linked_list_back(&table->list)", "&node->node"} for g_ in gs_)
+                # (the same fact read off the links: the node's successor is the list's tail sentinel)
+                at_back = at_back or any(g_ and g_[1] == "==" and g_[2] is not None and {f.show(RU.uncast(f, g_[0])).replace(" ", ""), f.show(RU.uncast(f, g_[2])).replace(" ", "")} == {"node->node.next", "&table->list.tail"} for g_ in gs_)
                 if not at_back:
                     bad.append((r_.node.get("loc", [0])[0], s_))
         if not f.returns():
